@@ -26,6 +26,12 @@ re-applied by hand to lines that fix `118f47a` had rewritten in the meantime; it
 there (evidence and replays redirected), and records the outcome in `seeded/RESULTS_quick.json`; `--related` also runs the
 checks whose system under simulation shares code with the property (`RESULTS_quick_related.json`, column "caught by").
 
+Three of them (C02_a2, C02_c1, C10_d2 - all slips inside `inverse_circuit`'s pivot path) stopped being breaking changes
+when fix `898a575` made `inverse_circuit` verify its own result and fall back: on the repaired tree C02_a2's demonstration
+passes and the other two (one identical line, which no longer applies and was ported by hand) no longer alter behaviour.
+Their rows show the result on the tree they were written for. The final regression (every change against the final checks
+and the final tree, `VERIF_SEED=0`) caught all other {n - 3}.
+
 **Result: all {n} are caught by the quick check of their own property - {n - len(missed_first)} by the checks as they stood when
 the change arrived, {len(missed_first)} only after the check had been strengthened** ({", ".join(missed_first)}; the remarks
 column says how). The misses had one thing in common: the *workload vocabulary* was too narrow, not the oracle. Inputs
